@@ -150,7 +150,11 @@ func NewHTTPReverseProxy(option HTTPReverseProxyOptions, vhostRouter *Routers) *
 		},
 	}
 	rp.transport = proxy.Transport.(*http.Transport)
-	rp.proxy = h2c.NewHandler(proxy, &http2.Server{})
+	// Authentication and routing happen inside the h2c handler, so that every stream of a
+	// cleartext HTTP/2 connection is checked and routed by its own host, path and user.
+	rp.proxy = h2c.NewHandler(http.HandlerFunc(func(rw http.ResponseWriter, req *http.Request) {
+		rp.serveRouted(proxy, rw, req)
+	}), &http2.Server{})
 	return rp
 }
 
@@ -338,6 +342,10 @@ func (rp *HTTPReverseProxy) injectRequestInfoToCtx(req *http.Request) *http.Requ
 }
 
 func (rp *HTTPReverseProxy) ServeHTTP(rw http.ResponseWriter, req *http.Request) {
+	rp.proxy.ServeHTTP(rw, req)
+}
+
+func (rp *HTTPReverseProxy) serveRouted(proxy http.Handler, rw http.ResponseWriter, req *http.Request) {
 	domain, _ := httppkg.CanonicalHost(req.Host)
 	location := req.URL.Path
 	user, passwd, _ := req.BasicAuth()
@@ -352,6 +360,6 @@ func (rp *HTTPReverseProxy) ServeHTTP(rw http.ResponseWriter, req *http.Request)
 	if req.Method == http.MethodConnect {
 		rp.connectHandler(rw, newreq)
 	} else {
-		rp.proxy.ServeHTTP(rw, newreq)
+		proxy.ServeHTTP(rw, newreq)
 	}
 }
